@@ -1,4 +1,3 @@
 package main
 
-func numtextMain(args []string)  { panic("todo") }
 func literalsMain(args []string) { panic("todo") }
